@@ -1,2 +1,52 @@
-(* C07 - primitive-level operations (theorems added as they are proved) *)
-From BSE Require Import Model.Val Model.Basis Model.Manip.
+(* C07 - primitive-level operations do exactly what they are defined to do.
+   Statements are in Proofs/SortDefs.v (Sections C07Stmts, OptStmts, Naturality). *)
+From Coq Require Import QArith.
+Close Scope Q_scope.
+From BSE Require Import Model.Val Model.Num Model.Basis Model.Manip Model.ManipS Gen.GenConsts.
+From BSE Require Import Proofs.FSDefs Proofs.SortDefs Proofs.NumDefs Proofs.NumInstance Proofs.C07Spec Proofs.WfCompute.
+
+Definition K : carrier_ok is0_s same_s String.eqb lit_make_general_zero lit_unc_seg_one lit_optimize_zero := num_instance.
+
+(* uncontract_segmented (with its seen-set): the function set is exactly one unit function per (momentum, primitive) *)
+Theorem uncontract_segmented_spec : unc_seg_shells_spec_stmt is0_s same_s lit_unc_seg_one.
+Proof. exact (@C07Spec.unc_seg_shells_spec _ _ _ _ _ _ _ K). Qed.
+Print Assumptions uncontract_segmented_spec.
+
+(* ... no primitive is emitted twice ... *)
+Theorem uncontract_segmented_nodup : unc_seg_shells_nodup_stmt same_s lit_unc_seg_one.
+Proof. exact (@C07Spec.unc_seg_shells_nodup _ _ _ _ _ _ _ K). Qed.
+Print Assumptions uncontract_segmented_nodup.
+
+(* ... and every emitted shell is the unit shell of a primitive of the input *)
+Theorem uncontract_segmented_shape : unc_seg_shells_shape_stmt same_s lit_unc_seg_one.
+Proof. exact (@C07Spec.unc_seg_shells_shape _ same_s lit_unc_seg_one). Qed.
+Print Assumptions uncontract_segmented_shape.
+
+(* remove_free_primitives (before the final prune): exactly the functions with two or more non-zero coefficients,
+   for every well-formed shell list, fused shells included *)
+Theorem remove_free_primitives_spec : rm_free_spec_all_stmt is0_s same_s.
+Proof. exact (@C07Spec.rm_free_spec_all _ is0_s same_s). Qed.
+Print Assumptions remove_free_primitives_spec.
+
+Theorem remove_free_primitives_wf : rm_free_wf_all_stmt is0_s.
+Proof. exact (@C07Spec.rm_free_wf_all _ is0_s). Qed.
+Print Assumptions remove_free_primitives_wf.
+
+(* optimize_general on rational coefficients: same linear span per shell, never more non-zero coefficients *)
+Theorem optimize_general_span : opt_shell_span_stmt.
+Proof. exact C07Spec.opt_shell_span. Qed.
+Print Assumptions optimize_general_span.
+
+(* the generic code commutes with every map of the carrier preserving the zero test, so the statement about the
+   rational instance transfers to the decimal-string instance that is extracted and run *)
+Theorem optimize_general_natural :
+  forall (A B : Type) (is0A : A -> bool) (is0B : B -> bool) (h : A -> B) (zA : A) (zB : B),
+    opt_shell_natural_stmt is0A is0B h zA zB.
+Proof. exact C07Spec.opt_shell_natural. Qed.
+Print Assumptions optimize_general_natural.
+
+Definition demo_shells : list (shell string) :=
+  [ mkShell "gto" "" [0%Z; 1%Z] ["5.0"; "1.2"] [["0.1"; "0.9"]; ["0.2"; "0.8"]];
+    mkShell "gto" "" [0%Z] ["30.0"; "5.00"; "0.4"] [["0.3"; "0.7"; "0.0"]; ["0.0"; "0.0"; "1.0"]] ].
+Example demo_wf : wf_shells is0_s demo_shells.
+Proof. apply wf_shellsb_ok; vm_compute; reflexivity. Qed.
